@@ -31,7 +31,9 @@ STATUSES = ("clean", "modified-unstaged", "modified-staged", "staged+unstaged", 
 NAMINGS = {"plain": ("a.txt", "other.txt"), "blank": ("a b.txt", "o ther.txt"), "non-ascii": ("ä.txt", "öther.txt"),
             "dot-slash": ("a.txt", "other.txt"), "subdir-dot": ("a.txt", "other.txt"),
             # 13 pattern files reached through one glob, the unrelated file lives below the same directory
-            "many-in-dir": ("pkg/mod_00.py", "pkg/sub/other.txt")}
+            "many-in-dir": ("pkg/mod_00.py", "pkg/sub/other.txt"),
+            # the project (config + files) lives in packages/core/ of a larger repository; bumpver runs there
+            "subdir-project": ("a.txt", "other.txt")}
 # how the configuration spells the pattern file (the file itself has the canonical name)
 CONFIG_SPELLING = {"dot-slash": "./a.txt", "subdir-dot": "sub/../a.txt", "many-in-dir": "pkg/mod_*.py"}
 GONE = ("deleted-staged", "deleted-unstaged", "renamed")
@@ -57,6 +59,7 @@ def explore(tier, seed):
             chunks.append(("non-ascii", "bumpver.toml", ps, ("clean",)))
             chunks.append(("dot-slash", "bumpver.toml", ps, ("clean", "untracked")))
             chunks.append(("subdir-dot", "setup.cfg", ps, ("clean",)))
+            chunks.append(("subdir-project", "bumpver.toml", ps, ("clean", "modified-unstaged", "modified-staged")))
             if ps not in GONE:
                 # (a file that no longer exists under a name the glob matches is not a configured file any more)
                 chunks.append(("many-in-dir", "bumpver.toml", ps, ("clean", "modified-unstaged", "untracked")))
@@ -141,6 +144,12 @@ def run_case(st, base, naming, fmt, ps, us, allow, crowd=0, extra=()):
     if us in ("added", "untracked"):
         not_committed.add(ufile)
     gw.init()
+    prefix = ""
+    if naming == "subdir-project":
+        prefix = "packages/core/"
+        world.write_tree({"README.md": b"monorepo\n"})
+        os.makedirs(prefix)
+        os.chdir(prefix)
     if naming == "subdir-dot":
         os.makedirs("sub")
         files["sub/keep.txt"] = b"x\n"
@@ -163,6 +172,12 @@ def run_case(st, base, naming, fmt, ps, us, allow, crowd=0, extra=()):
     st.transitions += 1
     st.validated += 1
     case = {"naming": naming, "format": fmt, "pattern_file": ps, "unrelated_file": us, "allow_dirty": allow, "crowd": crowd, "extra": list(extra)}
+    if prefix and after["head"] == before["head"] and after["tags"] == before["tags"]:
+        # no repository at the project root: bumpver does not commit here, so nothing can be swept into a commit
+        st.observe((case, o.exit, o.crashed, "no-commit"))
+        st.state(case.items())
+        st.outcomes["not-committing:repository-root-is-above-the-project"] += 1
+        return
     st.observe((case, o.exit, o.crashed, sorted(after_tree.items()), after["status"], len(after["tags"])))
     st.state(case.items())
     if ps != "clean" or us != "clean":
@@ -189,7 +204,7 @@ def run_case(st, base, naming, fmt, ps, us, allow, crowd=0, extra=()):
         return
     st.outcomes[f"proceeded:unrelated={us}"] += 1
     changed = gw.commit_files()
-    allowed = {fmt, pfile} | set(SIBLINGS.get(naming, ()))
+    allowed = {prefix + fmt, prefix + pfile} | set(SIBLINGS.get(naming, ()))
     if crowd:
         us = "crowd"
     extra = [f for f in changed if f not in allowed and f not in staged_names and renamed(f) not in staged_names]
